@@ -37,7 +37,7 @@ LIKE_CALLS = ("zeros_like", "ones_like", "empty_like", "full_like", "rand_like",
 def _functions(p):
     """every def of the library with its FuncInfo-like description (module, qualname, node), nested ones included"""
     for mod in p.modules.values():
-        stack = [(mod.tree, "", None)]
+        stack = [(getattr(mod, "raw_tree", None) or mod.tree, "", None)]
         while stack:
             node, prefix, cls = stack.pop()
             for ch in ast.iter_child_nodes(node):
@@ -102,6 +102,7 @@ def mode_keep_findings(p, res, rule="MODE-KEEP", file_filter=None):
         if fn.name in MODE_OVERRIDES:
             continue
         nodes = _own_nodes(fn)
+        cond_dir = {}  # conditional restores: call id -> the one mode they restore
         switches = {}  # receiver text -> [(call node, restored-from name or None)]
         saved = {}  # local name -> (receiver text whose .training it holds, position)
         pos = {id(n): i for i, n in enumerate(nodes)}
@@ -125,19 +126,91 @@ def mode_keep_findings(p, res, rule="MODE-KEEP", file_filter=None):
                 continue
             rt = norm_text(recv)
             arg = None
-            if n.func.attr == "train":
+            # `if was_training: m.train()` / `if not was_training: m.eval()`: a restore spelled as a test of the saved value
+            cur = n
+            while getattr(cur, "_parent", None) is not None and cur is not fn and arg is None:
+                par = cur._parent
+                if isinstance(par, ast.If) and any(cur is x for x in par.body):
+                    t, neg = par.test, False
+                    if isinstance(t, ast.UnaryOp) and isinstance(t.op, ast.Not):
+                        t, neg = t.operand, True
+                    known = isinstance(t, ast.Name) and t.id in saved and saved[t.id][0] == rt
+                    # ... or the flag itself, tested around the whole switch-and-restore block
+                    if isinstance(t, ast.Attribute) and t.attr == "training" and norm_text(t.value) == rt:
+                        known = True
+                    if known:
+                        a0 = n.args[0] if n.args else next((k.value for k in n.keywords if k.arg == "mode"), None)
+                        to_train = n.func.attr == "train" and (a0 is None or (isinstance(a0, ast.Constant) and a0.value is True))
+                        to_eval = n.func.attr == "eval" or (n.func.attr == "train" and isinstance(a0, ast.Constant) and a0.value is False)
+                        if (to_train and not neg) or (to_eval and neg):
+                            arg = t.id if isinstance(t, ast.Name) else "<branch>"
+                            cond_dir[id(n)] = "train" if to_train else "eval"
+                cur = par
+            if arg is None and n.func.attr == "train":
                 a = n.args[0] if n.args else next((k.value for k in n.keywords if k.arg == "mode"), None)
                 if isinstance(a, ast.Name) and a.id in saved and saved[a.id][0] == rt:
                     arg = a.id
                 elif isinstance(a, ast.Attribute) and a.attr == "training" and norm_text(a.value) == rt:
                     arg = "<same>"  # m.train(m.training): no change
             switches.setdefault(rt, []).append((n, arg))
+        # a snapshot of the flags taken before the first switch and written back afterwards, flag by flag:
+        #   modes = [(m, m.training) for m in module.modules()] ... for m, mode in modes: m.training = mode
+        snapshots = {}
+        for a in nodes:
+            if isinstance(a, ast.Assign) and len(a.targets) == 1 and isinstance(a.targets[0], ast.Name) and isinstance(a.value, (ast.ListComp, ast.DictComp, ast.List, ast.Dict, ast.Tuple, ast.Call)) and any(isinstance(x, ast.Attribute) and x.attr == "training" and isinstance(x.ctx, ast.Load) for x in ast.walk(a.value)):
+                snapshots[a.targets[0].id] = (a, pos[id(a)])
+        restores = []  # (position, snapshot name)
+        restore_loops = []
+        for a in nodes:
+            if isinstance(a, ast.For):
+                it = a.iter
+                while isinstance(it, ast.Call) and isinstance(it.func, ast.Attribute) and it.func.attr in ("items", "values") and not it.args:
+                    it = it.func.value
+                if isinstance(it, ast.Call) and isinstance(it.func, ast.Name) and it.func.id in ("reversed", "list", "tuple") and len(it.args) == 1:
+                    it = it.args[0]
+                its = [it]
+                if isinstance(it, ast.Call) and isinstance(it.func, ast.Name) and it.func.id in ("zip", "enumerate"):
+                    its = list(it.args)
+                snap = next((x.id for x in its if isinstance(x, ast.Name) and x.id in snapshots), None)
+                if snap is not None:
+                    it = ast.Name(id=snap, ctx=ast.Load())
+                    tnames = {x.id for x in ast.walk(a.target) if isinstance(x, ast.Name)}
+                    for b in ast.walk(a):
+                        wr = isinstance(b, ast.Assign) and any(isinstance(t, ast.Attribute) and t.attr == "training" for t in b.targets) and isinstance(b.value, ast.Name) and b.value.id in tnames
+                        cl = isinstance(b, ast.Call) and isinstance(b.func, ast.Attribute) and b.func.attr == "train" and b.args and isinstance(b.args[0], ast.Name) and b.args[0].id in tnames
+                        if wr or cl:
+                            restores.append((pos[id(a)], it.id))
+                            restore_loops.append(a)
         for rt, lst in switches.items():
             n_sw += len(lst)
-            first, last = lst[0], lst[-1]
-            ok = last[1] is not None and (last[1] == "<same>" or saved[last[1]][1] < pos[id(first[0])] or first[1] is not None)
+            # switches made by a write-back loop are the restore itself
+            real = [(c, a_) for c, a_ in lst if not any(any(x is c for x in ast.walk(L)) for L in restore_loops)]
+            if not real:
+                res.ok("%s: `%s` is only switched by the write-back of a snapshot" % (qual, rt))
+                continue
+            first, last = real[0], real[-1]
+            snap_ok = [nm for p_, nm in restores if p_ > pos[id(last[0])] and snapshots[nm][1] < pos[id(first[0])] and rt in norm_text(snapshots[nm][0].value)]
+            if snap_ok:
+                res.ok("%s: the flags of `%s` and its sub-modules are snapshotted before the switch and written back after it" % (qual, rt))
+                continue
+            ok = last[1] is not None and (last[1] in ("<same>", "<branch>") or saved[last[1]][1] < pos[id(first[0])] or first[1] is not None)
             if all(a is not None for _, a in lst):
                 ok = True
+
+            def direction(c):
+                a0 = c.args[0] if c.args else next((k.value for k in c.keywords if k.arg == "mode"), None)
+                if c.func.attr == "eval" or (isinstance(a0, ast.Constant) and a0.value is False):
+                    return "eval"
+                if a0 is None or (isinstance(a0, ast.Constant) and a0.value is True):
+                    return "train"
+                return None
+
+            # a restore spelled `if was: m.train()` only undoes switches to the other mode
+            for c, a in lst:
+                if id(c) in cond_dir:
+                    others = [direction(c2) for c2, a2 in lst if a2 is None]
+                    if any(d is None or d == cond_dir[id(c)] for d in others):
+                        ok = False
             if ok:
                 res.ok("%s: the mode of `%s` is put back to the value read before the switch" % (qual, rt))
                 continue
@@ -186,11 +259,12 @@ def _shared_names(p):
     mutable container or a tensor"""
     out = {}
     for mod in p.modules.values():
-        for st in mod.tree.body:
+        tree = getattr(mod, "raw_tree", None) or mod.tree
+        for st in tree.body:
             tg, v = _simple_assign(st)
             if tg and _mutable_value(v):
                 out[(mod.name, None, tg)] = (_mutable_value(v), st)
-        for c in ast.walk(mod.tree):
+        for c in ast.walk(tree):
             if isinstance(c, ast.ClassDef):
                 for st in c.body:
                     tg, v = _simple_assign(st)
@@ -237,8 +311,15 @@ def _paths(e, fn, params, depth=0):
                 return
         if isinstance(n, ast.Call):
             f = n.func
-            if isinstance(f, ast.Attribute) and f.attr in ("to", "type_as", "new_tensor", "new_zeros", "new_ones", "new_full", "new_empty") and f.attr != "to":
-                pass
+            # x.tolist() / x.item() / x.numpy(): the whole content of x
+            if isinstance(f, ast.Attribute) and f.attr in ("tolist", "item", "numpy", "tobytes") and not n.args:
+                rec(f.value, depth)
+                return
+            # cls._helper(..) / ClassName.helper(..): the callee is code, not data
+            if isinstance(f, ast.Attribute) and isinstance(f.value, ast.Name) and (f.value.id == "cls" or f.value.id[:1].isupper()):
+                for a in list(n.args) + [k.value for k in n.keywords]:
+                    rec(a, depth)
+                return
             if isinstance(f, ast.Attribute) and f.attr in ("to", "type_as") and len(n.args) == 1 and isinstance(n.args[0], ast.Name) and n.args[0].id in params:
                 rec(f.value, depth)
                 out.add(n.args[0].id + ".dtype")
@@ -307,6 +388,13 @@ def shared_state_findings(p, res, rule="SHARED-STATE", file_filter=None, ctor=Tr
                         exprs.extend(e.elts)
                     elif isinstance(e, ast.IfExp):
                         exprs.extend([e.body, e.orelse])
+            if kinds and fn.name.startswith("_") and not fn.name.startswith("__"):
+                hazard = _memo_result_hazard(mod, fn.name)
+                if hazard is None:
+                    res.ok("%s is memoised and returns a %s that the module only reads (never written in place, returned or stored)" % (qual, "/".join(sorted(kinds))))
+                    continue
+                res.fail(Finding(rule, mod, qual, fn, "%s is memoised (@%s) and returns a %s, and %s: the one cached object is shared by every call with equal arguments, so that write / hand-out changes what later calls compute" % (qual, name, "/".join(sorted(kinds)), hazard), construct="memoised result of %s" % qual))
+                continue
             if kinds:
                 res.fail(Finding(rule, mod, qual, fn, "%s is memoised (@%s) and returns a %s: every caller with equal arguments receives the same object, so an in-place edit by one caller (`mask ^= 1`, `out[0] = ..`, `+=`) changes what every later call returns -- the result of a call depends on what earlier callers did with theirs" % (qual, name, "/".join(sorted(kinds))), construct="memoised result of %s" % qual))
             else:
@@ -346,6 +434,26 @@ def shared_state_findings(p, res, rule="SHARED-STATE", file_filter=None, ctor=Tr
                             return k
             return None
 
+        # (d) a function that hands out what it reads from a shared container: its callers share one object
+        for r in _own_nodes(fn):
+            if not (isinstance(r, ast.Return) and r.value is not None):
+                continue
+            srcs = [r.value] + [a.value for a in _own_nodes(fn) if isinstance(r.value, ast.Name) and isinstance(a, ast.Assign) and any(isinstance(t, ast.Name) and t.id == r.value.id for t in a.targets)]
+            got = None
+            for e in srcs:
+                if isinstance(e, ast.Subscript) and shared_of(e.value) and shared[shared_of(e.value)][0] == "container":
+                    got = shared_of(e.value)
+                if isinstance(e, ast.Call) and isinstance(e.func, ast.Attribute) and e.func.attr in ("get", "setdefault") and shared_of(e.func.value) and shared[shared_of(e.func.value)][0] == "container":
+                    got = shared_of(e.func.value)
+            if got is None:
+                continue
+            n_sites += 1
+            label = ".".join(x for x in got[1:] if x)
+            hazard = _memo_result_hazard(mod, fn.name) if (fn.name.startswith("_") and not fn.name.startswith("__")) else "it is a public function: its callers may do anything with the result"
+            if hazard is None:
+                res.ok("%s hands out entries of `%s`; the module only reads them" % (qual, label))
+            else:
+                res.fail(Finding(rule, mod, qual, r, "%s returns the object kept in the shared container `%s` itself, and %s: every caller with the same key holds one and the same tensor, so a later in-place write through any of them (an optimiser step, load_state_dict copying into a registered buffer, `+=`) changes it for all the others and for every future call" % (qual, label, hazard), construct="shared entry of %s handed out by %s" % (label, qual)))
         for n in _own_nodes(fn):
             tgt = key = val = None
             how = None
@@ -387,8 +495,18 @@ def shared_state_findings(p, res, rule="SHARED-STATE", file_filter=None, ctor=Tr
             if val is None:
                 res.ok("%s only removes entries of %s" % (qual, label))
                 continue
-            vp = _paths(val, fn, params | {"self"})
-            kp = _paths(key, fn, params | {"self"}) if key is not None else set()
+            vp = _paths(val, fn, (params | {"self"}) - {"cls"})
+            kp = _paths(key, fn, (params | {"self"}) - {"cls"}) if key is not None else set()
+            # a flag the function has already returned on (`if random_mask: return ..`) has one value at the store
+            fixed = set()
+            for st in fn.body:
+                if st is n or any(x is n for x in ast.walk(st)):
+                    break
+                if isinstance(st, ast.If) and st.body and isinstance(st.body[-1], (ast.Return, ast.Raise)) and not st.orelse:
+                    t = st.test.operand if isinstance(st.test, ast.UnaryOp) and isinstance(st.test.op, ast.Not) else st.test
+                    if isinstance(t, ast.Name):
+                        fixed.add(t.id)
+            vp = {x for x in vp if x not in fixed}
             miss = _covered(vp, kp)
             if not miss:
                 res.ok("%s: entry of %s `%s` is determined by its key" % (qual, where, label))
@@ -415,6 +533,59 @@ def _local_names(fn):
                 if isinstance(x, ast.Name) and isinstance(x.ctx, ast.Store):
                     out.add(x.id)
     return out - glob
+
+
+def _memo_result_hazard(mod, fname):
+    """how the module lets the result of the private memoised function `fname` be changed or get out: a sentence,
+    or None when every use only reads it"""
+    for fn in ast.walk(getattr(mod, "raw_tree", None) or mod.tree):
+        if not isinstance(fn, (ast.FunctionDef, ast.AsyncFunctionDef)) or fn.name == fname:
+            continue
+        nodes = _own_nodes(fn)
+        holders = set()
+        for n in nodes:
+            if not (isinstance(n, ast.Call) and ((isinstance(n.func, ast.Name) and n.func.id == fname) or (isinstance(n.func, ast.Attribute) and n.func.attr == fname))):
+                continue
+            par = getattr(n, "_parent", None)
+            if isinstance(par, ast.Return) and not fn.name.startswith("_"):
+                return "`%s` returns it to its caller" % fn.name
+            if isinstance(par, ast.Assign) and par.value is n:
+                for t in par.targets:
+                    if isinstance(t, ast.Name):
+                        holders.add(t.id)
+                    elif isinstance(t, (ast.Tuple, ast.List)):
+                        holders.update(x.id for x in t.elts if isinstance(x, ast.Name))
+                    elif isinstance(t, ast.Attribute):
+                        return "`%s` stores it in `%s`" % (fn.name, norm_text(t))
+            if isinstance(par, ast.Attribute) and isinstance(getattr(par, "_parent", None), ast.Call) and par._parent.func is par and par.attr.endswith("_") and not par.attr.startswith("_"):
+                return "`%s` applies the in-place `%s` to it" % (fn.name, par.attr)
+            if isinstance(par, ast.keyword) and par.arg == "out":
+                return "`%s` passes it as out=" % fn.name
+        for n in nodes:
+            if isinstance(n, ast.AugAssign):
+                base = n.target
+                while isinstance(base, ast.Subscript):
+                    base = base.value
+                if isinstance(base, ast.Name) and base.id in holders:
+                    return "`%s` updates it in place (`%s`)" % (fn.name, norm_text(n)[:50])
+            if isinstance(n, ast.Assign):
+                for t in n.targets:
+                    base = t
+                    while isinstance(base, ast.Subscript):
+                        base = base.value
+                    if isinstance(t, ast.Subscript) and isinstance(base, ast.Name) and base.id in holders:
+                        return "`%s` writes into it (`%s`)" % (fn.name, norm_text(n)[:50])
+                    if isinstance(t, ast.Attribute) and isinstance(n.value, ast.Name) and n.value.id in holders:
+                        return "`%s` stores it in `%s`" % (fn.name, norm_text(t))
+            if isinstance(n, ast.Call) and isinstance(n.func, ast.Attribute) and n.func.attr in ("register_buffer", "register_parameter", "Parameter", "Buffer") and any(isinstance(a, ast.Name) and a.id in holders for a in n.args):
+                return "`%s` registers it as module state (`%s`)" % (fn.name, norm_text(n)[:50])
+            if isinstance(n, ast.Call) and isinstance(n.func, ast.Attribute) and isinstance(n.func.value, ast.Name) and n.func.value.id in holders and n.func.attr.endswith("_") and not n.func.attr.startswith("_"):
+                return "`%s` applies the in-place `%s` to it" % (fn.name, n.func.attr)
+            if isinstance(n, ast.Return) and isinstance(n.value, ast.Name) and n.value.id in holders and not fn.name.startswith("_"):
+                return "`%s` returns it to its caller" % fn.name
+            if isinstance(n, ast.Call) and any(k.arg == "out" and isinstance(k.value, ast.Name) and k.value.id in holders for k in n.keywords):
+                return "`%s` passes it as out=" % fn.name
+    return None
 
 
 def _declared_global(fn, name):
@@ -463,6 +634,11 @@ def shared_spline(ctx):
     return shared_state_rule(ctx, file_filter=lambda rel: any(s in rel for s in SPLINE_FILES), floor=40)
 
 
+def shared_made(ctx):
+    """C06: masks and degrees belong to the layer they were built for"""
+    return shared_state_rule(ctx, file_filter=lambda rel: rel.endswith("made.py") or rel.endswith("transforms/autoregressive.py"), floor=20)
+
+
 def shared_utils(ctx):
     return shared_state_rule(ctx, file_filter=lambda rel: "/utils/" in "/" + rel, floor=15)
 
@@ -482,6 +658,7 @@ def _install():
     PROPERTIES["C09"]["rules"].append(shared_spline)
     PROPERTIES["C17"]["rules"].append(shared_spline)
     PROPERTIES["C20"]["rules"].append(shared_utils)
+    PROPERTIES["C06"]["rules"].append(shared_made)
 
 
 _install()
